@@ -86,7 +86,7 @@ mod trace {
     }
 }
 
-const PARTS: u16 = 2048;
+const PARTS: u16 = 2048; // at most this many cases per child process
 const BUCKETS: u16 = 4;
 const X_LIMIT: usize = 4;
 
@@ -191,6 +191,7 @@ struct Run<'a> {
     toks: Vec<Option<String>>,
     pend: Vec<(usize, bool, Pending)>, // (token index, is_y, reply)
     nbar: u64,
+    has_y: bool,
 }
 
 impl<'a> Run<'a> {
@@ -298,8 +299,32 @@ impl<'a> Run<'a> {
     /// Y's catch-up runs on its own timer. It is quiet when nothing is buffered any more (every write answered), or when
     /// a whole catch-up round that began after the last change brought no progress: the replicator announces each round,
     /// and starts the next one only after it handled the previous answer, so two further announcements bracket one round.
+    /// X's watermark follows its disk through the confirmation actor, asynchronously. Before Y's catch-up is judged,
+    /// wait until X shows (ReadPartition) exactly the confirmed prefix of its disk - what Y can be served.
+    async fn x_watermark_settled(&mut self) -> Result<(), String> {
+        let q = self.sh.rf / 2 + 1;
+        let t0 = Instant::now();
+        loop {
+            let mut pref = 0u64;
+            let mut it = self.sh.dbx.read_partition(self.c.pid, 0, IterDirection::Forward).await.map_err(|e| format!("read: {e}"))?;
+            'scan: while let Some(batch) = it.next_batch(64).await.map_err(|e| format!("read: {e}"))? {
+                for c in batch {
+                    let last = c.last_partition_sequence().ok_or("empty commit")?;
+                    if c.into_iter().all(|e| e.confirmation_count >= q) { pref = last + 1; } else { break 'scan; }
+                }
+            }
+            let shown = match self.sh.cluster.ask(ReadPartition { partition_id: self.c.pid, start_sequence: 0, end_sequence: None, count: 100_000 }).await {
+                Ok(r) => r.events.len() as u64,
+                Err(e) => return Err(format!("ReadPartition: {e}")),
+            };
+            if shown == pref || t0.elapsed() > Duration::from_secs(60) { return Ok(()); }
+            tokio::time::sleep(Duration::from_millis(10)).await;
+        }
+    }
+
     async fn settle(&mut self) -> Result<(), String> {
         self.barrier(false).await?;
+        if self.has_y { self.x_watermark_settled().await?; }
         self.barrier(true).await?;
         self.collect(false).await;
         if !self.pend.iter().any(|(_, y, _)| *y) { return Ok(()); }
@@ -426,7 +451,8 @@ impl<'a> Run<'a> {
 
 async fn run_case(sh: &Shared, c: &mut Case) -> Result<String, String> {
     let n = c.ops.len();
-    let mut r = Run { sh, c, yrep: None, toks: vec![None; n], pend: Vec::new(), nbar: 0 };
+    let has_y = c.ops.iter().any(|o| o[0].starts_with('y'));
+    let mut r = Run { sh, c, yrep: None, toks: vec![None; n], pend: Vec::new(), nbar: 0, has_y };
     r.spawn_y().await;
     let mut err = None;
     for i in 0..n {
@@ -468,10 +494,12 @@ async fn child_run(rf: u8, lines: Vec<String>) -> Result<Vec<(String, String)>, 
     let dbx = open_db(dirx.path())?;
     let dby = open_db(diry.path())?;
     let q = rf / 2 + 1;
+    // one partition per case and one that is not owned; a node starts one replicator per partition, so no more than needed
+    let parts: u16 = ((lines.len() + 1).max(8)).min(PARTS as usize) as u16;
     let mut cases: Vec<Case> = Vec::new();
     let mut out: Vec<(String, Option<String>)> = Vec::new();
     for (i, l) in lines.iter().enumerate() {
-        if cases.len() >= PARTS as usize { out.push((l.clone(), Some("HARNESS-ERROR too many cases".into()))); continue; }
+        if cases.len() + 1 >= parts as usize { out.push((l.clone(), Some("HARNESS-ERROR too many cases".into()))); continue; }
         match parse_case(i, cases.len() as u16, l) {
             Some(c) => { out.push((l.clone(), None)); cases.push(c); }
             None => out.push((l.clone(), Some("BADCASE".into()))),
@@ -479,7 +507,7 @@ async fn child_run(rf: u8, lines: Vec<String>) -> Result<Vec<(String, String)>, 
     }
     // history: the same confirmed single-event transactions on both disks (Y may be behind)
     for c in cases.iter_mut() {
-        if uuid_to_partition_hash(key_for(c.pid)) % PARTS != c.pid { return Err(format!("key for partition {} is wrong", c.pid)); }
+        if uuid_to_partition_hash(key_for(c.pid)) % parts != c.pid { return Err(format!("key for partition {} is wrong", c.pid)); }
         for j in 0..c.n0x {
             let t = mk_tx(c.pid, c.idx, 900 + j, 1, false)?.with_confirmation_count(q);
             c.ids.insert(t.transaction_id(), 900 + j);
@@ -495,9 +523,9 @@ async fn child_run(rf: u8, lines: Vec<String>) -> Result<Vec<(String, String)>, 
         node_count: 1,
         node_index: 0,
         bucket_count: BUCKETS,
-        partition_count: PARTS,
+        partition_count: parts,
         replication_factor: rf,
-        assigned_partitions: HashSet::from_iter(0..PARTS - 1), // the last partition is NOT owned
+        assigned_partitions: HashSet::from_iter(0..parts - 1), // the last partition is NOT owned
         heartbeat_timeout: Duration::from_secs(600),
         heartbeat_interval: Duration::from_secs(600),
         replication_buffer_size: X_LIMIT,
@@ -507,7 +535,7 @@ async fn child_run(rf: u8, lines: Vec<String>) -> Result<Vec<(String, String)>, 
     });
     cluster.wait_for_startup().await;
     let coord = cluster.clone().into_remote_ref().await;
-    let confy = ConfirmationActor::new(dby.clone(), rf, (0..PARTS).collect()).await.map_err(|e| format!("confirmation actor: {e}"))?;
+    let confy = ConfirmationActor::new(dby.clone(), rf, (0..parts).collect()).await.map_err(|e| format!("confirmation actor: {e}"))?;
     let confy = Spawn::spawn(confy);
     // a coordinator ref this node does not know (another peer id): only (de)serialisation can build one
     let fid = kameo::actor::ActorId::new_with_peer_id(7, Keypair::generate_ed25519().public().to_peer_id());
